@@ -6,15 +6,18 @@
 (* implementation B: BReadLn, BStrtol, BTokLoop, BDrain ...) are defined   *)
 (* in ReadLineOps.tla, see the comment there.  The invariants at the end   *)
 (* state that B refines A: chunking-invariance, prefix-closure (peer       *)
-(* death), no line stuck or lost in the buffer, argv[] stores in bounds,   *)
-(* clean end of input.                                                     *)
+(* death), no line stuck or lost in the buffer (every complete line that   *)
+(* has been read has been delivered when the read returns: the safety form *)
+(* of "does not hang on lines it holds"), argv[] stores in bounds, an      *)
+(* absent optional parameter is NULL for the handler, clean end of input.  *)
 (***************************************************************************)
 EXTENDS ReadLineOps
 
 -----------------------------------------------------------------------------
 (* The state machine: a peer writes a byte stream, the daemon read()s it in  *)
 (* chunks of any size up to MaxChunk, the peer may die after any byte.       *)
-CONSTANTS Streams, MaxChunk
+CONSTANTS Streams, MaxChunk,
+          LiveIds      \* client ids that have a request (lines for other ids take the unknown-id path)
 
 VARIABLES
     rest,     \* bytes the peer has not delivered yet
@@ -22,33 +25,47 @@ VARIABLES
     buf,      \* iauth_in (the evbuffer)
     dl,       \* ghost: lines handed to the dispatcher so far, [id, argv]
     slots,    \* ghost: argv[] slots written so far
+    opts,     \* ghost: what dispatched lines found in the argv[] slot of their first absent parameter
     eof       \* read() returned 0: clean_exit, event_base_loopbreak()
 
-rvars == <<rest, seen, buf, dl, slots, eof>>
+rvars == <<rest, seen, buf, dl, slots, opts, eof>>
 
 RInit == /\ rest \in Streams
-         /\ seen = <<>> /\ buf = <<>> /\ dl = <<>> /\ slots = {} /\ eof = FALSE
+         /\ seen = <<>> /\ buf = <<>> /\ dl = <<>> /\ slots = {} /\ opts = {} /\ eof = FALSE
+
+\* Bug "drainfull": "drain the burst" - after a read() that filled the whole MaxChunk-byte buffer the callback
+\* calls read() again BEFORE it parses anything (stdin is a blocking descriptor: it sits there until more bytes
+\* or end of input arrive); the lines it already holds are delivered only after the next, shorter, read.
+Deferred(n) == "drainfull" \in Bug /\ n = MaxChunk
 
 \* iauth_read(), res > 0
 Read(n) ==
     /\ ~eof /\ n >= 1 /\ n <= Len(rest)
     /\ LET chunk == SubSeq(rest, 1, n)
-           r == BDrain(buf \o chunk, <<>>, slots)
-       IN /\ buf' = (IF "droppartial" \in Bug THEN <<>> ELSE r.buf)
-          /\ dl' = dl \o r.dl
-          /\ slots' = r.slots
-          /\ seen' = seen \o chunk
+           r == BDrainL(buf \o chunk, <<>>, slots, opts, LiveIds)
+       IN IF Deferred(n)
+          THEN /\ buf' = buf \o chunk
+               /\ UNCHANGED <<dl, slots, opts>>
+               /\ seen' = seen \o chunk
+          ELSE /\ buf' = (IF "droppartial" \in Bug THEN <<>> ELSE r.buf)
+               /\ dl' = dl \o r.dl
+               /\ slots' = r.slots
+               /\ opts' = r.opts
+               /\ seen' = seen \o chunk
     /\ rest' = Sub(rest, n + 1, Len(rest))
     /\ UNCHANGED eof
 
 \* iauth_read(), res == 0: end of input, possibly with undelivered bytes still at the dead peer;
 \* module_destructor() frees the evbuffer with whatever it holds
+\* (Bug "drainfull": the read() that was waiting returns 0 with chunks in hand: they are parsed, then end of input)
 Eof ==
     /\ ~eof
     /\ eof' = TRUE
     /\ buf' = <<>>
-    /\ dl' = (IF "eoftail" \in Bug /\ buf # <<>> THEN dl \o BDrain(Append(buf, LF), <<>>, {}).dl ELSE dl)
-    /\ UNCHANGED <<rest, seen, slots>>
+    /\ dl' = (IF "eoftail" \in Bug /\ buf # <<>> THEN dl \o BDrainL(Append(buf, LF), <<>>, {}, {}, LiveIds).dl
+              ELSE IF "drainfull" \in Bug THEN dl \o BDrainL(buf, <<>>, {}, {}, LiveIds).dl
+              ELSE dl)
+    /\ UNCHANGED <<rest, seen, slots, opts>>
 
 RNext == Eof \/ \E n \in 1..MaxChunk : Read(n)
 
@@ -60,8 +77,15 @@ RSpec == RInit /\ [][RNext]_rvars
 DeliveredIsContract == dl = ADeliver(seen)
 \* between reads the buffer holds exactly the unterminated tail (no line is stuck in it, none is lost)
 BufferIsTail == ~eof => buf = ATail(seen)
+\* promptness (liveness as safety): when a read has returned, every complete line received so far has been
+\* delivered - the daemon never waits for more input (or for end of input) while it holds a complete line.
+\* Whatever the size of the read: in particular one that fills the whole read buffer (n = MaxChunk).
+NoLineWaiting == ~eof => (LFs(buf) = {} /\ Len(dl) = Len(ADeliver(seen)))
 \* memory: every argv[] store is inside the array
 ArgvInBounds == \A k \in slots : k < ARGV
+\* memory / junk-independence: a handler that looks at the parameter after the last one present finds NULL -
+\* never a pointer left behind by an earlier line of the same read (junk or not), never an uninitialised slot
+AbsentParamIsNull == opts \subseteq {"null", "none"}
 \* end of input is clean whatever was pending
 EofClean == eof => buf = <<>>
 =============================================================================
